@@ -189,7 +189,7 @@ PROPS["C12"] = dict(
     note=E2_NOTE + " Dominance is computed on clang's CFG of the instantiated evaluator members (if-constexpr resolved). " + E1_NOTE,
     technique="static: CFG dominance rule over instantiated evaluator code (custom libTooling extractor), sibling agreement of identity sources and of the float/double back-end tables; " + E1_TECH + " (exhaustive small-shape enumeration of the broadcast enumerator)",
     e1=[dict(tu="c12_enum.cpp"), dict(tu="c12b_simd_eval.cpp"), dict(tu="c12c_simd_binary.cpp", flags=["-fno-math-errno"]), dict(tu="c12c_simd_binary.cpp", flags=["-fno-math-errno", "-DC12_CTX=simd::vector_256", "-DC12C_NO_39"], thorough_only=True),
-        dict(tu="c12d_simd_x86.cpp", flags=["-fno-math-errno", "-DC12_CTX=simd::x86_SSE"]), dict(tu="c12d_simd_x86.cpp", flags=["-fno-math-errno", "-mavx2", "-mfma", "-DC12_CTX=simd::x86_AVX"])],
+        dict(tu="c12d_simd_x86.cpp", flags=["-fno-math-errno", "-msse4.1", "-DC12_CTX=simd::x86_SSE"]), dict(tu="c12d_simd_x86.cpp", flags=["-fno-math-errno", "-mavx2", "-mfma", "-DC12_CTX=simd::x86_AVX"])],
     e2=[dict(rule="R-SIMD"), dict(rule="R-AXISNORM.simd"), dict(rule="R-SIMDSIB"), dict(rule="R-SIMDATTR")],
     rule="E2: one instance per packed access / scalar tail store / accumulator seed in each instantiated evaluator member; distinct by (instantiation, source line)",
     explanation="Never reading or writing outside the buffers is, for the linear paths, exactly the loop-guard dominance property; seeding with identity is necessary for reductions other than add.",
